@@ -250,13 +250,16 @@ CHECKS = {
         "text": "Deductive core + bounded stand-in. Proved for all inputs (unbounded): make_train_sets (four nested "
                 "loops incl. the chunked set difference and the capped sampling) - for every fold f and collection "
                 "j the training indices are rows of collection j and NONE of them is in the held-out fold f, with "
-                "and without a training-size cap (ValueError of rng.choice admitted only when a cap is given - the "
-                "recorded finding); _fit_model - the fitted model is tagged with its 1-based fold number, the key "
-                "brew sorts the models by. NOT proved: OnDiskPsmDataset._split (crc32/np.unique/searchsorted), the "
-                "fold->model index block of brew (parked: the routing clause does not discharge), _predict and "
-                "parse_in_chunks (pandas). These are decided by the bounded run: brew end to end with a recording "
-                "estimator (held-out scoring, spectra never split, caps), _split and make_train_sets on random "
-                "inputs. Five bounded findings are listed in known_findings.json.",
+                "and without a training-size cap, and no exception escapes (since repo fix 4df4b43 a file is only "
+                "sub-sampled when its cap is below its pool); _fit_model - the fitted model is tagged with its "
+                "1-based fold number, the key brew sorts the models by; brew#modelidx (the fold->model index block: "
+                "blocks of model numbers, argsort of the flattened folds, gather) - given that the folds of each "
+                "collection are a permutation of its rows, every row is routed to the model of the fold that holds "
+                "it (proved with an offset lemma by induction and stepping-stone assertions). NOT proved: "
+                "OnDiskPsmDataset._split (crc32/np.unique/searchsorted), _predict and parse_in_chunks (pandas). "
+                "These are decided by the bounded run: brew end to end with a recording estimator (held-out "
+                "scoring, spectra never split, caps), _split and make_train_sets on random inputs. Two bounded "
+                "findings (_split) are listed in known_findings.json.",
         "design_ref": "DESIGN.md 4.C02",
         "note": "list(set) = some duplicate-free enumeration; Generator.choice(replace=False) = selection from the "
                 "population (ValueError if too small); zip(*x) over equally long lists; estimator internals, pandas "
